@@ -31,7 +31,7 @@ def gen_treeinfo(rng, R=None):
         "base_product": {"name": "Base", "short": rng.choice(["B", "B", ""]), "version": rng.choice(["7", "Rawhide"])} if layered else None,
         "tree": {"arch": arch, "build_timestamp": rng.choice([1440000000, 1, rng.randint(10 ** 8, 2 * 10 ** 9), -1,
                                                          2 ** 53 + 1, 1700000000123456789, -(2 ** 60 + 7)]),   # time.time_ns() is an integer too
-                 "platforms": sorted(set(rng.sample([arch, "xen", "ppc64"], rng.randint(0, 3))))},
+                 "platforms": sorted(set(rng.sample([arch, "xen", "ppc64", "xen-pvh", "efi-secureboot"], rng.randint(0, 4))))},
         "variants": {}, "images": {}, "stage2": {"mainimage": None, "instimage": None},
         "media": {"discnum": None, "totaldiscs": None}, "checksums": {},
     }
@@ -173,7 +173,7 @@ def impl_roundtrip(case):
     if snap(ti) != before:
         return ["api-inconsistent", ["writing changed the object itself (its public state before and after dumps() differs)"]]
     if case.get("main_variant") is None:
-        api = api_consistency(ti, TI.TreeInfo, text, before=before)
+        api = api_consistency(ti, TI.TreeInfo, text, before=before, pipe=False)      # the INI readers rewind their stream (O13)
         if api:
             return ["api-inconsistent", api]
     table = section_table(text)
@@ -223,7 +223,7 @@ def impl_discinfo(case):
         text = o.dumps()
     except EXC as e:
         return exc_result(e)
-    api = api_consistency(o, DI.DiscInfo, text)
+    api = api_consistency(o, DI.DiscInfo, text, pipe=False)
     if api:
         return ["api-inconsistent", api]
     o2 = DI.DiscInfo()
